@@ -122,8 +122,10 @@ CLAIMED["C13"] = {
             "from the empty store REFINES a reference registry (partial map index -> (count, value), fresh index = any non-live index, copy +1 up to 255, drop -1 and removal at 0, operations = "
             "library function of the operands' values, dead index -> error) with the slab invariant preserved; an index handed out is never live; an index denotes the same MOC along every history "
             "that does not drop it; n drops of a count-c entry; two-phase operations are atomic when operands are not dropped in between; EVERY interleaving of lock sections of any number of threads "
-            "gives each call the output of the sequential execution in completion order (linearizability in the lock-section model). Partial: absence of deadlock / poisoning depends on the lock "
-            "implementation and is exercised by real threads under a watchdog (test level); ST entries and geometry constructors are outside the modelled population.",
+            "gives each call the output of the sequential execution in completion order (linearizability in the lock-section model); lock discipline (the lock sections of every call never nest "
+            "and are all closed). The lock sections of every real call are recorded through the verif_hooks feature and compared with the model's, so a re-entrant helper is caught on sequential "
+            "histories. Partial: fairness / poisoning of the real lock are exercised by real threads under a watchdog (test level); ST entries and geometry constructors are outside the "
+            "modelled population.",
     "design_ref": "DESIGN.md §4 C13, §10",
     "note": TB + "; slab crate modelled not verified; RwLock sections assumed atomic",
     "technique": "Lean 4 proof (refinement to an abstract registry + interleaving theorem) + differential correspondence on a long sequential history + threaded stress run with watchdog",
@@ -188,9 +190,9 @@ CLAIMED["C16"] = {
     "note": TB + "; visibility rules of MAP_SHARED stores vs buffered writes are assumptions of the model",
     "technique": "Lean 4 proof on an effect-order model + fault-point enumeration on the real binary (hook feature)",
 }
-HOOKS["source_commits"] = ["a33f737"]
-HOOKS["guard"] = "cargo feature `verif_hooks` of crate moc-set (crates/set)"
-HOOKS["enable"] = "cargo build -p moc-set -p moc-cli --features moc-set/verif_hooks (done by ./check C16 into .cache/repo-target-hooks)"
+HOOKS["source_commits"] = ["a33f737", "4abcf7e"]
+HOOKS["guard"] = "cargo feature `verif_hooks` (one feature of that name in crate moc-set, crates/set: kill points of `append`, used by C16; one in crate moc: lock-section log of the MOC store, used by C13); both off by default"
+HOOKS["enable"] = "C16: cargo build -p moc-set -p moc-cli --features moc-set/verif_hooks (done by ./check C16 into .cache/repo-target-hooks); C13: the harness depends on moc with features [storage, verif_hooks] (harness/Cargo.toml)"
 _ST_NOTE = TB + "; specification-level model: no theorem is about the Rust state machines themselves, the tie is the point-wise correspondence"
 CLAIMED["C08"] = {
     "text": "Theorems fix the specification of the ST union (point set = union of the point sets, commutativity, neutral element, idempotence) and what the validity predicate validSTB "
